@@ -5,6 +5,7 @@ from ..values import is_variant, payload
 from .. import replay as rp
 from .setops import bits_for, fnr, decode_ab, prog_ab, built
 
+from ..validate import validation_group
 BOUNDS = {'quick': {'alternatives_of_A': '1..2', 'alternatives_of_B': 1}, 'thorough': {'alternatives_of_A': '1..3', 'alternatives_of_B': 1}}
 OUTSIDE = ['multi-alternative B (deliberately left out by the property)', 'parser / Display', 'more alternatives than the bound']
 ASSUMPTIONS = ['rank mode is sound given C04', 'std models are transcriptions of the pinned nightly rust-src', 'every BoundSet is built by BoundSet::new']
@@ -15,6 +16,7 @@ def groups(tier):
     gs = [{'name': 'rank-%dx1' % ka, 'fn': rank_group, 'args': {'ka': ka}} for ka in range(1, K + 1)]
     gs += [{'name': 'self-%d' % ka, 'fn': self_group, 'args': {'ka': ka}} for ka in range(1, K + 1)]
     gs += [{'name': 'hybrid-%dx1' % ka, 'fn': hybrid_group, 'args': {'ka': ka}} for ka in range(1, K + 1)]
+    gs.append(validation_group(('allows_all',), tier))
     return gs
 
 
